@@ -5,7 +5,7 @@
    openfile_depth) and the reference's budget (spec_max_links) are the
    constants goextract read from those files on this run. *)
 From Coq Require Import Sorting.Sorted.
-From Apko Require Import Base.Prelude Model.MemFS Spec.FsSpec Proofs.FsProofs Proofs.FsLaws Proofs.FsWf Proofs.FsAgree Proofs.FsReach Proofs.FsTame Proofs.FsTameOps Proofs.FsTameReach Generated.FsConsts.
+From Apko Require Import Base.Prelude Model.MemFS Spec.FsSpec Model.DirFS Proofs.FsDir Proofs.FsProofs Proofs.FsLaws Proofs.FsWf Proofs.FsAgree Proofs.FsReach Proofs.FsTame Proofs.FsTameOps Proofs.FsTameReach Generated.FsConsts.
 Open Scope string_scope. Open Scope list_scope.
 
 (* the limits the theorems below are about: both files say the same, and it is
@@ -406,6 +406,78 @@ Theorem c17_tarfs_mkdirall_dot_refuted :
   E MemFS init_st (MkdirAll ["."] 493%N) = true.
 Proof. split; [split; vm_compute; [reflexivity | intro H; discriminate H] | vm_compute; reflexivity]. Qed.
 Print Assumptions c17_tarfs_mkdirall_dot_refuted.
+
+(* ---- the directory-backed filesystem --------------------------------------------------------
+   [dirfs_step] (Model/DirFS.v) is the model of rwosfs.go on a case-sensitive
+   host: an overlay memFS (the model above, backend MemFS) next to the host
+   directory (one reference step per os.* call), with dirFS's own decisions:
+   which side is asked, in which order, whose error wins, whose answer is
+   returned.  [dsync d]: overlay and host hold the same tree (contents only on
+   the host, extended attributes only in the overlay).
+
+   For a synchronised state and an operation inside [denv] — normalised
+   RELATIVE names (they do not climb, filepath.Join leaves them alone), the
+   overlay's call inside the envelope E (the symbolic-link conditions are
+   there; c17_refines_syntactic gives the syntactic class), Link of a name that
+   is not itself a symbolic link — one step of dirFS is the reference's step
+   on the host state, result and next state, and the overlay stays
+   synchronised; Lstat and the attribute operations, which only the overlay
+   answers, are the reference's step on the overlay state. *)
+Theorem c17_dirfs_refines : forall d o, dsync d -> denv d o = true ->
+  let '(d', r) := dirfs_step d o in
+  dsync d' /\
+  if ov_only o then d_host d' = d_host d /\ spec_step (d_ov d) o = (d_ov d', r)
+  else spec_step (d_host d) o = (d_host d', r).
+Proof. exact dirfs_refines. Qed.
+Print Assumptions c17_dirfs_refines.
+
+(* sequences of any length from the empty directory: the host goes through
+   exactly the reference run of the operations that reach it and every answer
+   dirFS gives to them is the reference's *)
+Theorem c17_dirfs_run_refines : forall ops, run_in_denv dinit ops = true ->
+  dsync (fst (dirfs_run dinit ops)) /\
+  d_host (fst (dirfs_run dinit ops)) = fst (spec_run init_st (host_ops ops)) /\
+  host_obs ops (snd (dirfs_run dinit ops)) = snd (spec_run init_st (host_ops ops)).
+Proof. intros ops H. exact (dirfs_run_refines ops dinit dsync_init H). Qed.
+Print Assumptions c17_dirfs_run_refines.
+
+(* the key fact: the reference's tree operations commute with forgetting file
+   contents and attributes, so two states with the same tree answer alike *)
+Theorem c17_reference_tree_parametric : forall s1 s2 o1 o2,
+  sh (heap s1) = sh (heap s2) -> tree_op o1 = true -> tree_op o2 = true -> strip_op o1 = strip_op o2 ->
+  sh (heap (fst (spec_step s1 o1))) = sh (heap (fst (spec_step s2 o2))) /\
+  strip_out (snd (spec_step s1 o1)) = strip_out (snd (spec_step s2 o2)).
+Proof. exact pair_step. Qed.
+Print Assumptions c17_reference_tree_parametric.
+
+Definition c17_dirfs_demo : list op :=
+  [ Mkdir ["d"] 493%N; WriteFile ["d"; "f"] [1; 2; 3]%N 420%N; Symlink ["d"] ["l"]; Stat ["l"; "f"]; ReadDir ["d"];
+    OpenFile ["l"; "g"] (mkFl ARdWr false true false false) 420%N; Write 0 [9]%N; ReadFile ["d"; "g"]; Chmod ["d"; "g"] 384%N; Stat ["d"; "g"];
+    Link ["d"; "g"] ["h"]; SetXattr ["h"] "user.a" [7]%N; GetXattr ["d"; "g"] "user.a"; Lstat ["d"]; Readlink ["l"]; Remove ["d"; "f"]; ReadDir ["l"];
+    MkdirAll ["d"; "x"; "y"] 493%N; Remove ["nope"]; Close 0; Read 0 1 ].
+Example c17_dirfs_demo_in_envelope :
+  run_in_denv dinit c17_dirfs_demo = true /\
+  snd (dirfs_run dinit c17_dirfs_demo) =
+    [ OOk; OOk; OOk; OInfo KReg 420%N 3%N 0%Z 0%Z None; ODir [("f", KReg)]; OOk; ONum 1%Z; OBytes [9]%N; OOk; OInfo KReg 384%N 1%N 0%Z 0%Z None;
+      OOk; OOk; OBytes [7]%N; OInfo KDir 493%N 0%N 0%Z 0%Z None; OPath ["d"]; OOk; ODir [("g", KReg)]; OOk; OErr ENotExist; OOk; OErr EClosed ].
+Proof. vm_compute. split; reflexivity. Qed.
+
+(* outside [denv] overlay and host drift apart and dirFS is no filesystem any
+   more: Remove of a non-empty directory fails on the host (ENOTEMPTY) AFTER the
+   overlay has dropped the entry; then Stat d says NotExist (overlay first),
+   ReadFile d/f still reads the file (host only) and ReadDir d fails.
+   Replayed on the real code: corpus scenario dirfs/overlay-drift. *)
+Theorem c17_dirfs_drift_refuted :
+  let pre := [Mkdir ["d"] 493%N; WriteFile ["d"; "f"] [1]%N 420%N] in
+  let d0 := fst (dirfs_run dinit pre) in
+  let d1 := fst (dirfs_step d0 (Remove ["d"])) in
+  dsync d0 /\ denv d0 (Remove ["d"]) = false /\ snd (dirfs_step d0 (Remove ["d"])) = OErr EExist /\ ~ dsync d1 /\
+  snd (dirfs_step d1 (Stat ["d"])) = OErr ENotExist /\
+  snd (spec_step (d_host d1) (Stat ["d"])) = OInfo KDir 493%N 0%N 0%Z 0%Z None /\
+  snd (dirfs_step d1 (ReadFile ["d"; "f"])) = OBytes [1]%N /\
+  snd (dirfs_step d1 (ReadDir ["d"])) = OErr ENotExist.
+Proof. vm_compute. repeat split; try reflexivity. intro H; discriminate H. Qed.
+Print Assumptions c17_dirfs_drift_refuted.
 
 Definition fl_rdwr := mkFl ARdWr false false false false.
 Definition fl_rd := mkFl ARd false false false false.
